@@ -111,6 +111,26 @@ def run():
             if rr.rejected_at != at:
                 raise ToolError("selftest: step trace with %s: rejected at %s, expected %d" % (what, rr.rejected_at, at))
             report.append({"what": "SearchTrace: " + what, "rejected_at_event": rr.rejected_at, "events": len(case["events"])})
+        # ---- BitTrace: one answer of the shift primitive changed (a knight step that wraps round the board edge)
+        bp = os.path.join(work, "bit.ndjson")
+        vlib.run_harness(exe, ["bit-record", "--seed", 3, "--n", 20], stdout_path=bp)
+        blines = [json.loads(l) for l in open(bp)]
+        bi = [i for i, e in enumerate(blines) if e["ev"] == "shift" and e["bb"] == [7] and e["d"] == 10][0]
+        blines[bi]["out"] = [17]
+        bq = os.path.join(work, "bit_corrupt.ndjson")
+        open(bq, "w").write("\n".join(json.dumps(e) for e in blines) + "\n")
+        m, res, rej = vlib.validate_trace("BitTrace", "BitTrace.cfg", bq, lambda e: True, max_rejections=1)
+        if not rej or rej[0]["stuck"] != bi + 1 or "D_shift |-> FALSE" not in rej[0]["diag"]:
+            raise ToolError("selftest: corrupted shift answer not rejected at its event by BitTrace.tla: %s" % (rej[:1],))
+        report.append({"what": "BitTrace: shift of {h1} by 10 answered {b3} (wrap round the edge)", "rejected_at_line": rej[0]["stuck"], "failed_sub_checks": ["D_shift"]})
+        # ---- PoisonTrace: an answer that is not a legal move of the position it is given for
+        pp = os.path.join(work, "poison.ndjson")
+        fen = "8/8/5P2/5p2/2k1K3/8/8/8 w - -"
+        ev = {"ev": "poison", "first": "8/8/8/5pP1/4K3/1k6/8/8 w - f6", "d1": 3, "fen": fen, "pos": vlib.fen_to_struct(fen), "d2": 1, "mv": "f6f7"}
+        ok = dict(ev, mv="e4f5")
+        open(pp, "w").write(json.dumps({"ev": "orph", "fen": ev["first"], "depth": 3, "entered": 10, "entries": 5, "orphans": 1}) + "\n" + json.dumps(ok) + "\n" + json.dumps(ev) + "\n")
+        report.append(_expect_reject("PoisonTrace", "PoisonTrace.cfg", pp, lambda e: True, 3, "C03_bestmove_is_legal_in_the_position_last_set",
+                                     "table probe: the pawn move f6f7 answered for a position in which the king is in check (the legal answer e4f5 before it is accepted)"))
         # ---- Search.tla regression model
         r = vlib.run_tlc("Search", "Search_regress_store_on_abort.cfg", workers=vlib.NCPU, xmx="12g", timeout=1800)
         bad = [x for x in r.errors if "Invariant" in x]
